@@ -82,6 +82,146 @@ Definition tables_agree (c : byte) : bool :=
   | None => false
   end.
 
+(* ---- per-symbol view of BioSeq.complement for EVERY byte (seq.py:501-509): the symbol map depends on the whole string only
+   through the flag 'U' in self.data ---- *)
+Definition cA : byte := "A"%byte.
+Definition cc (u : bool) (c : byte) : byte :=
+  if u then (let d := trans1 (if byte_eqb c cU then cT else c) in if byte_eqb d cT then cU else d) else trans1 c.
+(* 'is complement applied twice the identity on s' (proved to be exactly that in C05_Lemmas.complement_involutive_iff) *)
+Definition inv_ok (s : str) : bool := negb (has cU s) || (has cA s && negb (has cT s)).
+(* RNA reading of a code: its bases written with U for T; RNA Watson-Crick map *)
+Definition t2u1 (c : byte) : byte := if byte_eqb c cT then cU else c.
+Definition u2t1 (c : byte) : byte := if byte_eqb c cU then cT else c.
+Definition iupac_rna (c : byte) : list byte := map t2u1 (iupac (u2t1 c)).
+Definition wc_rna (b : byte) : byte := t2u1 (wc (u2t1 b)).
+Definition alphabet_rna : str := bs "ACGURYSWKMBDHVN.-"%bs.
+Definition sym_ok_rna (c : byte) : bool :=
+  set_eqb (iupac_rna (cc true c)) (map wc_rna (iupac_rna c))
+  && has (cc true c) alphabet_rna
+  && (if is_gapsym c then byte_eqb (cc true c) c else true).
+
+(* ---- the table construction itself (seq.py:21-24 over sugar/data/__init__.py:54-58) as a function of CODES and COMPLEMENT ---- *)
+(* CODES_INV = {frozenset(v): k for k, v in CODES.items()}: a dict keyed by sets; a later entry with an equal key overwrites the value *)
+Fixpoint inv_insert (ks : list byte) (k : byte) (t : list (list byte * byte)) : list (list byte * byte) :=
+  match t with
+  | [] => [(ks, k)]
+  | (a, b) :: r => if set_eqb a ks then (a, k) :: r else (a, b) :: inv_insert ks k r
+  end.
+Definition derive_inv (codes : list (byte * list byte)) : list (list byte * byte) :=
+  fold_left (fun t kv => inv_insert (snd kv) (fst kv) t) codes [].
+Fixpoint lookupS (ks : list byte) (t : list (list byte * byte)) : option byte :=
+  match t with
+  | [] => None
+  | (a, b) :: r => if set_eqb a ks then Some b else lookupS ks r
+  end.
+Fixpoint mapM {A B} (f : A -> option B) (l : list A) : option (list B) :=
+  match l with
+  | [] => Some []
+  | x :: r => match f x, mapM f r with Some y, Some ys => Some (y :: ys) | _, _ => None end
+  end.
+(* COMPLEMENT_ALL = {c: CODES_INV[frozenset(COMPLEMENT[nt] for nt in nts)] for c, nts in CODES.items()}; a KeyError is None *)
+Definition derive_entry (compl : list (byte * byte)) (inv : list (list byte * byte)) (kv : byte * list byte) : option (byte * byte) :=
+  match mapM (fun nt => lookupB nt compl) (snd kv) with
+  | Some l => match lookupS l inv with Some d => Some (fst kv, d) | None => None end
+  | None => None
+  end.
+Definition derive_all (codes : list (byte * list byte)) (compl : list (byte * byte)) : option (list (byte * byte)) :=
+  mapM (derive_entry compl (derive_inv codes)) codes.
+(* COMPLEMENT_TRANS = str.maketrans(COMPLEMENT_ALL): code point -> replacement *)
+Definition derive_trans (all : list (byte * byte)) : list (N * N) :=
+  map (fun kv => (Byte.to_N (fst kv), Byte.to_N (snd kv))) all.
+
+(* ---- BioSeq.__init__ (seq.py:221-223): data = str(data).upper(); Latin-1 str.upper / str.lower of CPython ---- *)
+Definition nb (c : byte) : N := Byte.to_N c.
+Definition shift (c : byte) (n : N) : byte := match Byte.of_N n with Some b => b | None => c end.
+Definition upper1 (c : byte) : list byte :=
+  let n := nb c in
+  if ((97 <=? n) && (n <=? 122))%N || (((224 <=? n) && (n <=? 254))%N && negb (n =? 247)%N) then [shift c (n - 32)]
+  else if (n =? 223)%N then ["S"%byte; "S"%byte] else [c].
+(* 0xB5 and 0xFF have upper-case forms outside Latin-1 (U+039C, U+0178): outside the domain of the byte model *)
+Definition upper_ok (c : byte) : bool := negb (nb c =? 181)%N && negb (nb c =? 255)%N.
+Definition construct (s : str) : str := flat_map upper1 s.
+Definition lower1 (c : byte) : byte :=
+  let n := nb c in
+  if ((65 <=? n) && (n <=? 90))%N || (((192 <=? n) && (n <=? 222))%N && negb (n =? 215)%N) then shift c (n + 32) else c.
+Definition py_lower (s : str) : str := map lower1 s.
+
+(* ---- objects: a heap of sequence objects (cells, in creation order) and a basket = list of handles; the same object may be
+   listed twice. In-place methods replace the cell's data and return the receiver (seq.py:356-364, 501-509, 599-605, 781-788,
+   894-900, 914-920); copy() allocates (seq.py:517-521) ---- *)
+Record st := mkst { heap : list str; bask : list nat }.
+Definition cell (h : list str) (i : nat) : str := nth i h [].
+Fixpoint upd (h : list str) (i : nat) (v : str) : list str :=
+  match h, i with
+  | [], _ => []
+  | _ :: r, O => v :: r
+  | x :: r, S j => x :: upd r j v
+  end.
+Definition on_cell (f : str -> str) (i : nat) (h : list str) : list str := upd h i (f (cell h i)).
+(* for seq in self: seq.method() *)
+Definition on_basket (f : str -> str) (b : list nat) (h : list str) : list str := fold_left (fun h i => on_cell f i h) b h.
+Fixpoint set_nth (l : list nat) (p : nat) (v : nat) : list nat :=
+  match l, p with
+  | [], _ => []
+  | _ :: r, O => v :: r
+  | x :: r, S j => x :: set_nth r j v
+  end.
+(* per-sequence methods: what happens to the residues *)
+Definition seq_fun (opc : N) (arg : str) : option (str -> str) :=
+  match opc with
+  | 0%N => Some complement
+  | 1%N => Some reverse
+  | 2%N => Some rc                       (* rc() *)
+  | 3%N => Some rc                       (* rc(update_fts=True): same residues *)
+  | 8%N => Some py_translate             (* .str.translate(COMPLEMENT_TRANS): the table alone, no U handling *)
+  | 9%N => Some t2u                      (* .str.replace('T', 'U') *)
+  | 10%N => Some u2t                     (* .str.replace('U', 'T') *)
+  | 12%N => Some py_lower                (* .str.lower() *)
+  | 13%N => Some (fun _ => arg)          (* .data = arg *)
+  | 15%N => Some (fun s => s ++ arg)     (* += arg (no upper-casing) *)
+  | _ => None
+  end.
+Definition basket_fun (opc : N) : option (str -> str) :=
+  match opc with
+  | 5%N => Some complement | 6%N => Some reverse | 7%N => Some rc | 17%N => Some rc (* rc(update_fts=True) *)
+  | 11%N => Some py_translate (* basket.str.translate(COMPLEMENT_TRANS) *)
+  | _ => None
+  end.
+Definition step (s : st) (o : N * nat * str) : st :=
+  let '(opc, p, arg) := o in
+  let i := nth p (bask s) 0 in
+  match opc with
+  | 4%N => mkst (heap s ++ [cell (heap s) i]) (set_nth (bask s) p (length (heap s)))        (* basket[p] = basket[p].copy() *)
+  | 14%N => mkst (heap s) (bask s ++ [i])                                                   (* basket.append(basket[p]): alias *)
+  | 16%N => mkst (heap s ++ [construct arg]) (bask s ++ [length (heap s)])                  (* basket.append(BioSeq(arg)) *)
+  | _ => match basket_fun opc with
+         | Some f => mkst (on_basket f (bask s) (heap s)) (bask s)
+         | None => match seq_fun opc arg with
+                   | Some f => mkst (on_cell f i (heap s)) (bask s)
+                   | None => s
+                   end
+         end
+  end.
+Fixpoint trace (s : st) (ops : list (N * nat * str)) : list st :=
+  match ops with
+  | [] => []
+  | o :: r => let s' := step s o in s' :: trace s' r
+  end.
+Definition run_ops (s : st) (ops : list (N * nat * str)) : st := fold_left step ops s.
+Definition op_ok (nb0 : nat) (o : N * nat * str) : bool :=
+  let '(opc, p, arg) := o in
+  Nat.ltb p nb0 && N.ltb opc 18 && (if N.eqb opc 16 then forallb upper_ok arg else true).
+(* initial sequences: (true, s) = BioSeq(s) through the constructor, (false, s) = data assigned as it is *)
+Definition init_cell (m : bool * str) : str := if fst m then construct (snd m) else snd m.
+Definition init_st (ini : list (bool * str)) : st := mkst (map init_cell ini) (seq 0 (length ini)).
+Definition wf_hist (ini : list (bool * str)) (ops : list (N * nat * str)) : bool :=
+  negb (Nat.eqb (length ini) 0)
+  && forallb (fun m : bool * str => if fst m then forallb upper_ok (snd m) else true) ini
+  && forallb (op_ok (length ini)) ops.
+Definition show_st (s : st) : val := VL [VL (map VS (heap s)); VL (map (fun i => VI (Z.of_nat i)) (bask s))].
+Definition run_C05_hist (ini : list (bool * str)) (ops : list (N * nat * str)) : val :=
+  VL [VB (wf_hist ini ops); VL (map show_st (trace (init_st ini) ops))].
+
 (* ---- harness entry point ---- *)
 Definition run_C05 (op : N) (s : str) : val :=
   match op with
